@@ -202,14 +202,23 @@ def run_case(case):
         with Scratch('c17') as d:
             contigs = [(f'c{j}', r.randint(1, 5000)) for j in range(r.randint(1, 6))]
             bld = {}
-            bed = os.path.join(d, 'bl.bed')
-            with open(bed, 'w') as f:
-                for name, ln in contigs:
-                    for _ in range(r.choice([0, 1, 2, 4])):
-                        a = r.randint(-10, ln + 10)
-                        w = r.randint(1, max(2, ln // 2))
-                        bld.setdefault(name, []).append((a, a + w))
-                        f.write(f'{name}\t{a}\t{a + w}\n')
+            lines = []
+            for name, ln in contigs:
+                for _ in range(r.choice([0, 1, 2, 4])):
+                    a = r.randint(-10, ln + 10)
+                    w = r.randint(1, max(2, ln // 2))
+                    bld.setdefault(name, []).append((a, a + w))
+                    lines.append(f'{name}\t{a}\t{a + w}\n')
+            # the order of the lines and the compression of the file are not under the tool's control: grouped by contig, shuffled
+            # (concatenated blacklists), plain or gzipped
+            bed_form = r.choice(['grouped', 'shuffled', 'shuffled', 'gz'])
+            if bed_form != 'grouped':
+                r.shuffle(lines)
+            acc.count('bed:' + bed_form)
+            bed = os.path.join(d, 'bl.bed' + ('.gz' if bed_form == 'gz' else ''))
+            import gzip as _gz
+            with (_gz.open(bed, 'wt') if bed_form == 'gz' else open(bed, 'w')) as f:
+                f.write(''.join(lines))
             for F in (None, r.randint(0, 400)):
                 B = r.randint(1, 800)
                 wl = None if r.random() < 0.6 else set(n for n, _ in r.sample(contigs, max(1, len(contigs) // 2)))
@@ -228,7 +237,7 @@ def run_case(case):
                     res = check_tiling(acc, 0, ln, B, F, bl, per.get(name, []), 'contigs')
                     if res:
                         acc.violate(res[0], f'blacklisted_binning_contigs contig {name} len {ln} bin {B} fragment {F} blacklist {bl}: {res[1]}',
-                                    {'contig': name, 'length': ln, 'B': B, 'F': F, 'blacklist': list(bl), 'yielded': per.get(name, [])[:20]})
+                                    {'contig': name, 'length': ln, 'B': B, 'F': F, 'blacklist': list(bl), 'bed_form': bed_form, 'bed_lines': lines[:20], 'yielded': per.get(name, [])[:20]})
                     acc.sigs.add(f'contigs/{name}/{ln}/{B}/{F}/{bl}')
         acc.sample = {'contigs_example': {'contigs': contigs, 'bin': B, 'fragment': F, 'blacklist': {k: v[:3] for k, v in bld.items()}}}
     else:
